@@ -621,8 +621,8 @@ def frame_ok(env, snap, allowed):
     for k, old in snap.items():
         o = env[k]
         for f, v in o.fields.items():
-            if (k, f) in allowed:
-                continue
+            if (k, f) in allowed or f in o.ghost.get("env_written", ()):
+                continue                    # allowed for this method / written by the environment (interference mode), not by it
             if f not in old or old[f] is not v:
                 bad.append("%s.%s" % (k, f))
         for f in old:
